@@ -378,7 +378,8 @@ class FedSim(object):
         sp.outstanding[reqid] = came_from
         msg = self.capture(info, rb, "SAMLRequest", sp.name)
         msg["kind"] = "authn_request"
-        msg["signed_by"] = "k%d" % sp.spec["key"] if ev.get("sign") or sp.spec.get("sign_requests") else None
+        msg["signed_by"] = "k%d" % sp.spec.get("actual_key", sp.spec["key"]) \
+            if ev.get("sign") or sp.spec.get("sign_requests") else None
         fl.request = msg
         rec.update({"reqid": reqid, "dest": msg["dest"], "ok": True})
         self.count("start")
@@ -420,7 +421,7 @@ class FedSim(object):
         fl.reqid = reqid
         msg = self.capture(info, b, "SAMLRequest", sp.name)
         msg["kind"] = kind
-        msg["signed_by"] = "k%d" % sp.spec["key"] if sign else None
+        msg["signed_by"] = "k%d" % sp.spec.get("actual_key", sp.spec["key"]) if sign else None
         fl.request = msg
         rec.update({"reqid": reqid, "dest": msg["dest"], "ok": True})
         self.count("mkreq." + kind)
@@ -545,6 +546,15 @@ class FedSim(object):
             rec["error_msg"] = str(e)[:200]
             rec["tool"] = self.tool_slice(n0)
             self.count("aq_answer.error." + type(e).__name__)
+            if not ev.get("tf") and not ev.get("_benign"):
+                ev2 = copy.deepcopy(ev)
+                ev2["_benign"] = True
+                ev2.setdefault("p", {})["identity"] = {k: ["plain%d" % j for j, _ in enumerate(v)]
+                                                       for k, v in (p.get("identity") or {}).items()}
+                n_before = len(fl.responses)
+                rec2 = self.ev_aq_answer(ev2, i)
+                rec["benign_ok"] = bool(rec2 and rec2.get("ok"))
+                del fl.responses[n_before:]
             return rec
         rec["tool"] = self.tool_slice(n0)
         msg = {"binding": "soap", "dest": "", "fields": {"SAMLResponse": http["data"]}, "from": idp.name,
@@ -639,6 +649,19 @@ class FedSim(object):
             rec["error_msg"] = str(e)[:200]
             rec["tool"] = self.tool_slice(n0)
             self.count("answer.error." + type(e).__name__)
+            if not ev.get("tf") and not p.get("handover") and not ev.get("_benign"):
+                # differential probe: does the same request succeed with bland content?  Then the failure
+                # was caused by the *content* (C08: values are carried as data, for any content).
+                ev2 = copy.deepcopy(ev)
+                ev2["_benign"] = True
+                p2 = ev2.setdefault("p", {})
+                p2["identity"] = {k: ["plain%d" % j for j, _ in enumerate(v)] for k, v in (p.get("identity") or {}).items()}
+                if p2.get("name_id"):
+                    p2["name_id"] = dict(p2["name_id"], text="plainsubject")
+                rec2 = self.make_response(ev2, fl, idp, ra, {"f": rec.get("f"), "idp": idp.name})
+                rec["benign_ok"] = bool(rec2.get("ok"))
+                if rec2.get("ok"):
+                    fl.responses.pop()      # the probe's response is not part of the run
             return rec
         rec["tool"] = self.tool_slice(n0)
         binding = "post" if (ra.get("binding") or BINDING_HTTP_POST) == BINDING_HTTP_POST else "redirect"
@@ -646,7 +669,8 @@ class FedSim(object):
         msg["kind"] = "response"
         msg["answer"] = rec
         msg["asked"] = {"identity": identity, "p": p, "idp_now": idp_now, "sp_entity": ra.get("sp_entity_id"),
-                        "irt": ra.get("in_response_to"), "issuer": idp.entity_id,
+                        "irt": ra.get("in_response_to"),
+                        "issuer": ((p.get("dialect") or {}).get("resp_issuer") or idp.entity_id),
                         "signing_key": rec["signing_key"]}
         try:
             msg["xml"] = decode_value(msg["fields"]["SAMLResponse"], binding)
@@ -715,6 +739,10 @@ class FedSim(object):
             resp.in_response_to = d["resp_irt"]
         if "destination" in d:
             resp.destination = d["destination"]
+        if d.get("resp_issuer"):
+            resp.issuer.text = d["resp_issuer"]
+        if d.get("assertion_issuer"):
+            a.issuer.text = d["assertion_issuer"]
         if d.get("restyle_all"):
             a.issue_instant = ts(0)
             if a.authn_statement:
@@ -930,6 +958,16 @@ class FedSim(object):
             for k in list(v.keys()):
                 if ev.get("peer") in (None, k):
                     del v[k]
+        if ev.get("inplace") and name in self.nodes:
+            # the long-lived process reloads the metadata files; its objects (and whatever they
+            # remember) stay
+            try:
+                self.nodes[name].refresh_in_place(self.view_of(name))
+                self.count("refresh.inplace")
+            except Exception as e:
+                self.count("refresh.inplace.error." + type(e).__name__)
+                self.build_node(name)
+            return {"node": name, "inplace": True}
         self.build_node(name)
         self.count("refresh")
         return {"node": name}
@@ -960,8 +998,8 @@ class FedSim(object):
     def ev_misdeploy(self, ev, i):
         """The IdP's key file is replaced by another key while its published metadata (and,
         with cert='own', its certificate file) stay as they were."""
-        name = ev["idp"]
-        if name not in self.truth or self.truth[name]["kind"] != "idp":
+        name = ev.get("idp") or ev.get("node")
+        if name not in self.truth:
             return None
         spec = self.truth[name]
         spec["actual_key"] = ev["key"]
@@ -975,7 +1013,15 @@ class FedSim(object):
         if ev["node"] not in self.truth or ev["peer"] not in self.truth:
             return None
         self.views.setdefault(ev["node"], {})[ev["peer"]] = ev.get("spec")
-        self.build_node(ev["node"])
+        if ev.get("inplace") and ev["node"] in self.nodes:
+            try:
+                self.nodes[ev["node"]].refresh_in_place(self.view_of(ev["node"]))
+                self.count("setview.inplace")
+            except Exception as e:
+                self.count("setview.inplace.error." + type(e).__name__)
+                self.build_node(ev["node"])
+        else:
+            self.build_node(ev["node"])
         self.count("setview")
         return {"node": ev["node"], "peer": ev["peer"]}
 
